@@ -1,0 +1,34 @@
+"""Verification hook (guarded by the environment variable PB_BSS_VERIF=1).
+
+The mixture trainers call `trace(...)` once per EM iteration, directly after
+the M-step.  Unless PB_BSS_VERIF is `1` *and* a callback is registered, the
+call returns immediately and has no effect.  Add-only instrumentation.
+"""
+import os
+
+_callbacks = []
+
+
+def enabled():
+    return os.environ.get('PB_BSS_VERIF') == '1' and bool(_callbacks)
+
+
+def register(callback):
+    _callbacks.append(callback)
+
+
+def clear():
+    del _callbacks[:]
+
+
+def trace(trainer, iteration, model, affiliation, quadratic_form=None):
+    if os.environ.get('PB_BSS_VERIF') != '1' or not _callbacks:
+        return
+    for callback in list(_callbacks):
+        callback(
+            trainer=trainer,
+            iteration=iteration,
+            model=model,
+            affiliation=affiliation,
+            quadratic_form=quadratic_form,
+        )
